@@ -24,17 +24,8 @@ def lemmas():
     out.append(Lemma(name="C09.safe.check_for_keyword", src="safety.c", entry="h_check_for_keyword", props=["C09"], timeout=1800, ghosts=["g_off"],
                      enforce_rec=[R("check_for_keyword")], unwindset="mk.0:101", functions=["check_for_keyword"], tier="thorough",
                      desc="recursive keyword scanner against its contract (--enforce-contract-rec): touches only the line buffer and the keyword bits, buffer stays terminated"))
-    out.append(Lemma(name="C09.safe.check_operand_type", src="safety.c", entry="h_check_operand_type", props=["C09"], timeout=900, ghosts=["g_off"],
-                     enforce=[R("check_operand_type")], replace=[R("imm_tok"), R("get_reg_str"), R("mem_tok")], unwindset="mk.0:101", functions=["check_operand_type"],
-                     desc="operand dispatcher, callees by contract"))
-    out.append(Lemma(name="C09.safe.operand_tok", src="safety.c", entry="h_operand_tok", props=["C09", "C10"], timeout=900, ghosts=["g_off"],
-                     enforce_rec=[R("operand_tok")], replace=[R("check_for_keyword"), R("get_operand_type"), R("check_operand_type")], unwindset="mk.0:101",
-                     functions=["operand_tok"], desc="recursive operand splitter (--enforce-contract-rec): operand index stays below 4 (precondition of the recursive call), callees by contract"))
-    out.append(Lemma(name="C09.safe.instr_tok", src="safety.c", entry="h_instr_tok", props=["C09"], timeout=900, ghosts=["g_off"],
-                     enforce=[R("instr_tok")], replace=[R("operand_tok")], unwindset="mk.0:101", functions=["instr_tok"],
-                     desc="mnemonic splitter: mnemonic copy stays inside instruction[15], callee by contract"))
     out.append(Lemma(name="C07.bound20", src="bound20.c", entry="h_bound20", props=["C07", "C09"], timeout=1800, mem_gb=24, object_bits=12, ghosts=["g_key", "g_len20", "g_t"],
-                     replace=["instr_tok/instr_tok__r", R("get_opd_format"), R("str_to_instr_key"), R("str_to_reg")], unwindset="h_bound20.0:101,strncpy.0:101",
+                     replace=["instr_tok/instr_tok__r2", R("get_opd_format"), R("str_to_instr_key"), R("str_to_reg")], unwindset="h_bound20.0:101,strncpy.0:101",
                      functions=["line_to_instr", "encode_offset", "encode_imm", "encode_operands", "get_reg", "get_rex_prefix", "check_registers", "assemble_asm"],
                      desc="real line_to_instr + assemble_asm on ANY tokenizer output (instr_tok by contract, look-ups by contract): an accepted line never emits more than the 20 reserve bytes and always has a valid table row; all safety checks on the encoder for arbitrary records"))
     for k in range(6):
@@ -51,9 +42,24 @@ def lemmas():
                          bounded="line of at most %d characters (object of %d symbolic bytes)" % (n, n + 1), functions=["str_to_instr"],
                          desc="real str_to_instr against its contract (filter and line_to_instr by contract): the returned length ends exactly behind the first LF or CR or at the NUL and no line end lies inside it (arbitrary ghost position), only the record and *read_len are written (DFCC frame: no state survives a line), a filter error is propagated; all safety checks"))
     out.append(Lemma(name="C09.line_to_instr", src="line.c", entry="h_line_to_instr", props=["C09", "C07", "C06"], enforce=["line_to_instr/line_to_instr__e"],
-                     replace=["instr_tok/instr_tok__r", R("get_opd_format"), R("str_to_instr_key"), R("str_to_reg")], timeout=1800, mem_gb=24, object_bits=12, ignore=ART,
+                     replace=["instr_tok/instr_tok__r2", R("get_opd_format"), R("str_to_instr_key"), R("str_to_reg")], timeout=1800, mem_gb=24, object_bits=12, ignore=ART,
                      unwindset="strncpy.0:101", functions=["line_to_instr", "all_opd_str_to_reg", "check_registers", "encode_offset", "encode_imm", "encode_operands"],
                      desc="real line_to_instr and encoder against its contract on ANY tokenizer output (tokenizer and look-ups by contract): writes only the record and the line buffer, success leaves a valid table row; all safety checks"))
+    # ---- tokenizer chain against the record relation TOK_REL (contracts/tok_contracts.h)
+    RR = lambda f: "%s/%s__r" % (f, f)
+    TK = dict(src="tokrel.c", props=["C09", "C10", "C07"], ghosts=["g_off"], unwindset="find_reg.0:40,strcmp.0:8,mk.0:101,get_operand_type.0:101")
+    out.append(Lemma(name="C09.tok.imm_tok", entry="h_imm_tok_r", timeout=1800, functions=["imm_tok"], tier="thorough",
+                     desc="imm_tok leaf lemma for its __r contract: on any line buffer and any record, only the immediate flag, the constant and the NASM bit change", **TK))
+    out.append(Lemma(name="C09.tok.mem_tok", entry="h_mem_tok_r", timeout=3000, functions=["mem_tok"], tier="thorough",
+                     desc="mem_tok leaf lemma for its __r contract: memory flag and index set, a [constant] operand has neither displacement nor index, every other slot and the encoder fields unchanged", **TK))
+    out.append(Lemma(name="C09.tok.check_operand_type", entry="h_check_operand_type_r", timeout=1800, enforce=[RR("check_operand_type")],
+                     replace=[RR("imm_tok"), RR("get_reg_str"), RR("mem_tok")], functions=["check_operand_type"],
+                     desc="check_operand_type against its __r contract (callees by contract): from 'operands 0..k-1 tokenized, slot k typed' to 'operands 0..k tokenized' or 'immediate in slot k and nothing follows'", **TK))
+    out.append(Lemma(name="C09.tok.operand_tok", entry="h_operand_tok_r", timeout=1800, enforce_rec=[RR("operand_tok")],
+                     replace=[R("check_for_keyword"), RR("check_operand_type")], functions=["operand_tok"],
+                     desc="operand_tok against its __r contract (--enforce-contract-rec, callees by contract): success leaves the record in the relation line_to_instr relies on (flags only with operands of the matching type, operands filled from slot 0, nothing behind an immediate, no error type)", **TK))
+    out.append(Lemma(name="C09.tok.instr_tok", entry="h_instr_tok_r", timeout=1800, enforce=["instr_tok/instr_tok__r2"], replace=[RR("operand_tok")], functions=["instr_tok"],
+                     desc="instr_tok against the contract line_to_instr uses (callee by contract): from a fresh record, success leaves the tokenized-record relation", **TK))
     # ---- C10: recognition / rejection lemmas on the real look-up functions and scanners
     out.append(Lemma(name="C10.T1.str_to_reg", src="reject.c", entry="h_T1_str_to_reg", props=["C10", "C01", "C04"], timeout=1800, unwind=110,
                      unwindset="find_reg.0:40,strcmp.0:8,s3_find.0:110,s3_find.1:110", ghosts=["g_s"], functions=["str_to_reg", "find_reg"],
